@@ -11,7 +11,7 @@ Float -> int helpers (trunc_sat_*, trunc_* for in-range operands) use z3's IEEE-
 import z3
 from pyvc.engine import Contract, make_value
 from pyvc.spec import and_, or_, not_, implies, ite, iff, tier
-from pyvc.sym import SymInt, SymBool, ctx, mk, mkb, as_z3_int, as_z3_bool
+from pyvc.sym import SymInt, SymBool, ctx, mk, mkb, as_z3_int, as_z3_bool, Undecided
 from pyvc import sym as S
 from pyvc import symfloat as SF
 from contracts import c39 as B
@@ -338,6 +338,181 @@ CONTRACTS.append(Contract("%s:f32_demote_f64" % M, "C22", params={"v": "float"},
                                                    implies(mkb(_F(e.v).inf), mkb(_F(e.result).inf))))]))
 
 
+# ---- wasm -> IR operator tables (WasmToIrCompiler.gen_binop / gen_cmpop) -------------------------------------
+# The real generator method is run on a stub compiler whose value stack holds two IR parameters; the IR it emits
+# (casts to the unsigned type, the Binop, the cast back / the pushed comparison triple) is evaluated under the IR
+# semantics of contracts/c24.py for symbolic operands and compared with the WebAssembly definition.
+from contracts import c24 as IRS
+from pyvc.spec import tdiv, trem, b2i
+
+WM = "ppci.wasm.wasm2ppci"
+
+
+def _gen_on_stub(method, opcode):
+    from ppci.wasm.wasm2ppci import WasmToIrCompiler
+    from ppci.wasm import components
+    from ppci import ir
+
+    class Stub(WasmToIrCompiler):
+        def __init__(self, ty):
+            self.stack = [ir.Parameter("a", ty), ir.Parameter("b", ty)] if ty is not None else []
+            self.emitted = []
+
+        def pop_value(self, ir_typ=None):
+            v = self.stack.pop()
+            if ir_typ is not None and v.ty is not ir_typ:
+                raise AssertionError("operand type %s, expected %s" % (v.ty, ir_typ))
+            return v
+
+        def push_value(self, v):
+            self.stack.append(v)
+
+        def emit(self, ins):
+            self.emitted.append(ins)
+            return ins
+    ty = WasmToIrCompiler.TYP_MAP[opcode.split(".")[0]]
+    st = Stub(ty)
+    if opcode.endswith("eqz"):
+        st.stack.pop()                      # one operand only (named a)
+    getattr(st, method)(components.Instruction(opcode))
+    if len(st.stack) != 1:
+        raise AssertionError("%s left %d values on the stack" % (opcode, len(st.stack)))
+    return st.stack[0]
+
+
+def _ir_value(v, a, b, e):
+    """IR run-time value of the node v built from parameters a, b (definedness conditions collected in e['irdef'])"""
+    from ppci import ir
+    if isinstance(v, ir.Parameter):
+        return a if v.name == "a" else b
+    if isinstance(v, ir.Const):
+        return v.value
+    if isinstance(v, ir.Cast):
+        return IRS.wrap(v.ty, _ir_value(v.src, a, b, e))
+    if isinstance(v, ir.Binop):
+        x, y = _ir_value(v.a, a, b, e), _ir_value(v.b, a, b, e)
+        e["irdef"] = e.get("irdef", []) + list(IRS.ir_defined(v.operation, v.ty, x, y))
+        return IRS.ir_binop(v.operation, v.ty, x, y)
+    raise Undecided("contract stale: generator emitted a %s node" % type(v).__name__)
+
+
+def _ir_defs(v, a, b):
+    """definedness conditions of the IR node v, innermost first (each may assume the previous ones)"""
+    from ppci import ir
+    if isinstance(v, ir.Cast):
+        yield from _ir_defs(v.src, a, b)
+    elif isinstance(v, ir.Binop):
+        yield from _ir_defs(v.a, a, b)
+        yield from _ir_defs(v.b, a, b)
+        yield from IRS.ir_defined(v.operation, v.ty, _ir_value(v.a, a, b, {}), _ir_value(v.b, a, b, {}))
+
+
+def _w_defined(op, n, a, b):
+    m = 1 << n
+    if op == "div_s":
+        return and_(b != 0, not_(and_(a == -(m >> 1), b == -1)))
+    if op == "rem_s":
+        return b != 0
+    if op in ("div_u", "rem_u"):
+        return b % m != 0
+    return True
+
+
+def _w_bin(op, n, a, b):
+    """(defined-and-not-trapping, value) of the WebAssembly integer operator, operands and result in signed interpretation"""
+    m = 1 << n
+    ua, ub = a % m, b % m
+    sg = lambda x: B.sext(x, n)
+    if op in ("add", "sub", "mul"):
+        return True, sg({"add": a + b, "sub": a - b, "mul": a * b}[op])
+    if op == "div_s":
+        return and_(b != 0, not_(and_(a == -(m >> 1), b == -1))), tdiv(a, b)
+    if op == "div_u":
+        return ub != 0, sg(ua // ub)
+    if op == "rem_s":
+        return b != 0, trem(a, b)
+    if op == "rem_u":
+        return ub != 0, sg(ua % ub)
+    if op in ("and", "or", "xor"):
+        # iand / ior / ixor act on the n-bit patterns; on the signed interpretations that is Python's & | ^ (infinite
+        # two's complement: the result's bits from n-1 upwards are all copies of one bit) -- ASSUMED identity
+        return True, {"and": lambda: a & b, "or": lambda: a | b, "xor": lambda: a ^ b}[op]()
+    k = IRS.pick(b, n)                          # shift count: concretised 0 <= b < n (the IR-defined domain)
+    if op == "shl":
+        return True, sg(ua * (1 << k))
+    if op == "shr_u":
+        return True, sg(ua >> k)
+    if op == "shr_s":
+        return True, a // (1 << k)
+    raise KeyError(op)
+
+
+def _mk_ab(c, g):
+    n = g["n"]
+    lo, hi = -(1 << (n - 1)), 1 << (n - 1)
+    a = make_value(("range", lo, hi), "a", c)
+    b = make_value(("range", lo, hi), "b", c)
+    return {"args": [], "env": {"a": a, "b": b}, "inputs": {"a": a, "b": b}}
+
+
+def _samples_ab(g, rnd):
+    vals = W.ivals(g["n"])
+    return [{"a": rnd.choice(vals), "b": rnd.choice(vals)} for _ in range(50)]
+
+
+def _binop_pre(e):
+    if e.op in ("shl", "shr_s", "shr_u"):
+        yield and_(e.b >= 0, e.b < e.n)         # outside: not defined by the IR (left to the back ends; bounded stand-in)
+        e["b"] = IRS.pick(e.b, e.n)             # one path per shift count
+    yield _w_defined(e.op, e.n, e.a, e.b)
+    node = _gen_on_stub("gen_binop", "i%d.%s" % (e.n, e.op))
+    yield from _ir_defs(node, e.a, e.b)
+    e["irv"] = _ir_value(node, e.a, e.b, e)
+
+
+def _binop_call(fn, env, args, kwargs):
+    return _gen_on_stub("gen_binop", "i%d.%s" % (env.n, env.op)).ty.name
+
+
+for _n in (32, 64):
+    for _op in ("add", "sub", "mul", "div_s", "div_u", "rem_s", "rem_u", "and", "or", "xor", "shl", "shr_s", "shr_u"):
+        CONTRACTS.append(Contract(
+            WM + ":WasmToIrCompiler.gen_binop", "C22", label="gen_binop(i%d.%s)" % (_n, _op), grid=[{"n": _n, "op": _op}], make=_mk_ab,
+            call=_binop_call, sample_inputs=_samples_ab, replay_args=lambda g, v: {"args": [], "env": dict(v)},
+            requires=_binop_pre,
+            ensures=lambda e: [("the emitted IR has the instruction's result type", e.result == "i%d" % e.n),
+                               ("IR value of the emitted code == WebAssembly value, for all operands where neither traps / is undefined",
+                                e.irv == _w_bin(e.op, e.n, e.a, e.b)[1])]))
+
+_WCMP = {"eq": lambda a, b, ua, ub: a == b, "ne": lambda a, b, ua, ub: a != b, "lt_s": lambda a, b, ua, ub: a < b, "lt_u": lambda a, b, ua, ub: ua < ub,
+         "gt_s": lambda a, b, ua, ub: a > b, "gt_u": lambda a, b, ua, ub: ua > ub, "le_s": lambda a, b, ua, ub: a <= b, "le_u": lambda a, b, ua, ub: ua <= ub,
+         "ge_s": lambda a, b, ua, ub: a >= b, "ge_u": lambda a, b, ua, ub: ua >= ub, "eqz": lambda a, b, ua, ub: a == 0}
+
+
+def _cmp_call(fn, env, args, kwargs):
+    r = _gen_on_stub("gen_cmpop", "i%d.%s" % (env.n, env.op))
+    if not (isinstance(r, tuple) and len(r) == 3):
+        raise Undecided("contract stale: gen_cmpop pushed %r" % (r,))
+    env["triple"] = r
+    return r[0]
+
+
+def _cmp_post(e):
+    op, x, y = e.triple
+    xv, yv = _ir_value(x, e.a, e.b, e), _ir_value(y, e.a, e.b, e)
+    m = 1 << e.n
+    return [("IR condition <=> WebAssembly comparison, for all operands",
+             iff(IRS.IRCMP[op](xv, yv) if hasattr(IRS, "IRCMP") else {"==": xv == yv, "!=": xv != yv, "<": xv < yv, ">": xv > yv, "<=": xv <= yv, ">=": xv >= yv}[op],
+                 _WCMP[e.op](e.a, e.b, e.a % m, e.b % m)))]
+
+
+for _n in (32, 64):
+    for _op in _WCMP:
+        CONTRACTS.append(Contract(
+            WM + ":WasmToIrCompiler.gen_cmpop", "C22", label="gen_cmpop(i%d.%s)" % (_n, _op), grid=[{"n": _n, "op": _op}], make=_mk_ab,
+            call=_cmp_call, sample_inputs=_samples_ab, replay_args=lambda g, v: {"args": [], "env": dict(v)}, ensures=_cmp_post))
+
+
 # ---- bounded end-to-end stand-in (never counted as proved) ------------------------------------------------
 # One module with one exported single-instruction function per numeric instruction (plus a few that reach
 # an operator through constants, select and a compared branch) is translated by the real wasm -> IR ->
@@ -423,7 +598,9 @@ def replay_bounded(inp):
     return ok, detail
 
 
-ASSUMED = ["finite doubles are modelled by their exact real value as arbitrary reals (over-approximation, sound for proofs; pyvc.symfloat); no floating-point arithmetic is modelled",
+ASSUMED = ["gen_binop contracts: the WebAssembly bitwise operators on n-bit patterns equal Python's & | ^ on the signed interpretations (two's-complement identity); "
+           "IR semantics as stated in contracts/c24.py (shifts defined for 0 <= count < n only: larger counts are left to the back ends and exercised by the bounded stand-in)",
+           "finite doubles are modelled by their exact real value as arbitrary reals (over-approximation, sound for proofs; pyvc.symfloat); no floating-point arithmetic is modelled",
            "f32 operands are doubles that happen to be representable in binary32: the contracts quantify over every double (a superset)",
            "the spec functions of contracts/c39.py are the WebAssembly integer operator definitions (irotl, irotr, iclz, ictz, ipopcnt, iextendM_s)"]
 NOT_COVERED = ["wasm -> IR translation, instantiation, memory, globals, traps, the native execution target (whole-pipeline behaviour against a reference "
